@@ -321,6 +321,52 @@ def run(tier, seed, replay=None):
                                    'normal': nm.tolist(), 'expected': (cr / np.linalg.norm(cr)).tolist()})
         except Exception as e:  # noqa
             V.failure({'what': 'tangent/normal raised %s' % type(e).__name__, 'obj': O.spec_json(spec), 'params': tp, 'msg': str(e)})
+    # ---- tangents with per-direction limits: tangent() without direction, tangent(direction=i) and normal() must all use the
+    # caller's `above` flag of EVERY direction (a crease or jump along a knot line of another direction decides the value),
+    # on grids and pointwise; oracle = derivative(..., above=...) (checked against the exact model above), normalised
+    for it in range(40 if tier == 'quick' else 600):
+        pd = rng.choice([2, 2, 3])
+        spec = O.gen_obj(rng, pardim=pd, dim=3 if pd == 2 and rng.random() < 0.7 else rng.choice([2, 3]), kinds=['open'], pmax=3, nint_max=2, multi=0.8)
+        o = O.make_impl(spec)
+        # parameters ON interior knot lines where there are any (else interior points), one per direction
+        tp = []
+        for b in spec['bases']:
+            s_, e_ = O.domain(b)
+            inner = sorted(set(x for x in b['knots'] if s_ < x < e_))
+            tp.append(float(rng.choice(inner)) if inner and rng.random() < 0.8 else float(s_ + (e_ - s_) * Fr(rng.randint(1, 63), 64)))
+        above = tuple(rng.random() < 0.5 for _ in range(pd))
+        tensor = rng.random() < 0.5
+        args_ = [[t_] for t_ in tp] if (not tensor or rng.random() < 0.5) else list(tp)     # pointwise evaluation takes lists
+        case_ = {'obj': O.spec_json(spec), 'params': tp, 'above': list(above), 'tensor': tensor, 'listed': isinstance(args_[0], list)}
+        try:
+            ders = []
+            for d in range(pd):
+                al = [0] * pd
+                al[d] = 1
+                ders.append(np.asarray(o.derivative(*tp, d=tuple(al), above=above)).reshape(-1))
+            if any(np.linalg.norm(v_) < 1e-9 or not np.all(np.isfinite(v_)) for v_ in ders):
+                continue
+            unit = [v_ / np.linalg.norm(v_) for v_ in ders]
+            allt = o.tangent(*args_, above=above, tensor=tensor)
+            ntn += 1
+            if len(allt) != pd or any(not np.allclose(np.asarray(allt[d]).reshape(-1), unit[d], rtol=1e-9, atol=1e-9) for d in range(pd)):
+                V.failure(dict(case_, what='tangent() without direction is not the tuple of normalised one-sided first derivatives',
+                               tangent=[np.asarray(x_).reshape(-1).tolist() for x_ in allt], expected=[u_.tolist() for u_ in unit]))
+                continue
+            for d in range(pd):
+                one = np.asarray(o.tangent(*args_, direction=O.spell(rng, d), above=above, tensor=tensor)).reshape(-1)
+                if not np.allclose(one, unit[d], rtol=1e-9, atol=1e-9):
+                    V.failure(dict(case_, what='tangent(direction=%d) is not the normalised one-sided first derivative' % d, tangent=one.tolist(), expected=unit[d].tolist()))
+                    break
+            if pd == 2 and spec['dim'] == 3:
+                cr = np.cross(unit[0], unit[1])
+                if np.linalg.norm(cr) > 1e-6:
+                    nm = np.asarray(o.normal(*args_, above=above, tensor=tensor)).reshape(-1)
+                    ntn += 1
+                    if not np.allclose(nm, cr / np.linalg.norm(cr), rtol=1e-8, atol=1e-8):
+                        V.failure(dict(case_, what='normal() is not the normalised cross product of the one-sided tangents', normal=nm.tolist(), expected=(cr / np.linalg.norm(cr)).tolist()))
+        except Exception as e:  # noqa
+            V.failure(dict(case_, what='tangent/normal with above=%s raised %s' % (above, type(e).__name__), msg=str(e)))
     rc = V.finish(l0, corr_bad)
     C.write_evidence(PID, tier, seed, l0, {
         'evaluations': evals + nds + ntn, 'distinct_nontrivial': len(nontriv),
